@@ -13,6 +13,7 @@ Exit codes: 0 held on everything explored; 1 violation(s) (each with a VIOLATION
 """
 import concurrent.futures
 import hashlib
+import shutil
 import json
 import os
 import subprocess
@@ -180,6 +181,8 @@ def run_replay_file(path, strict=True):
         r = run_replay_c16(path, v)
         if r is not None:
             return r
+    if v.get("case", {}).get("kind") == "fuzz-artifact":
+        return run_replay_fuzz(path, v)
     cfg = v.get("config") or "default"
     profile = v.get("profile") or "release"
     if cfg not in CONFIGS:
@@ -201,6 +204,73 @@ def run_replay_file(path, strict=True):
         # the replayed call killed the process (guard-page fault, abort): the violation reproduces
         return "fail", r.stdout + f"\nreplay process killed by signal {-r.returncode}\nVIOLATION property={v.get('property')} replay={path}\n"
     return "infra", r.stdout
+
+
+FUZZ = {
+    # property -> (cargo-fuzz target, max_len, runs in the thorough tier)
+    "C01": ("fz_c01", 256, 4_000_000),
+    "C04": ("fz_c04", 64, 8_000_000),
+    "C10": ("fz_c10", 512, 4_000_000),
+    "C11": ("fz_c10", 512, 4_000_000),
+}
+
+
+def fuzz_phase(prop, seed):
+    """thorough tier only: a libFuzzer (+ASan) campaign whose target carries the same oracle.
+    Returns (violations, stats, infra)."""
+    target, max_len, runs = FUZZ[prop]
+    fuzz_dir = os.path.join(VERIF, "fuzz")
+    corpus = os.path.join(BUILD, "fuzzcorpus", f"{target}-{os.getpid()}")
+    os.makedirs(corpus, exist_ok=True)
+    seeds = os.path.join(CORPUS, "fuzz", target)
+    if os.path.isdir(seeds):
+        for n in os.listdir(seeds):
+            shutil.copy(os.path.join(seeds, n), corpus)
+    art = os.path.join(BUILD, "fuzzartifacts", f"{target}-{os.getpid()}") + "/"
+    os.makedirs(art, exist_ok=True)
+    env = dict(ENV)
+    cmd = ["cargo", "+nightly", "fuzz", "run", "--fuzz-dir", fuzz_dir, target, corpus, "--", f"-runs={runs}", f"-max_len={max_len}", "-len_control=0",
+           f"-seed={seed + 1}", f"-artifact_prefix={art}", "-print_final_stats=1", "-workers=0", "-jobs=0"]
+    t0 = time.time()
+    try:
+        r = subprocess.run(cmd, cwd=HARNESS, env=env, stdout=subprocess.PIPE, stderr=subprocess.STDOUT, text=True, timeout=4 * 3600)
+    except subprocess.TimeoutExpired:
+        return [], {"target": target, "timed_out": True}, True
+    out = r.stdout
+    stats = {"target": target, "requested_runs": runs, "wall_s": round(time.time() - t0, 1)}
+    for line in out.splitlines():
+        if line.startswith("stat::number_of_executed_units:"):
+            stats["executed_units"] = int(line.split(":")[-1])
+        if " cov: " in line and "ft:" in line:
+            try:
+                stats["cov"] = int(line.split(" cov: ")[1].split()[0])
+            except Exception:
+                pass
+    viols = []
+    arts = [os.path.join(art, n) for n in sorted(os.listdir(art))]
+    if r.returncode != 0 and arts:
+        msg = next((l for l in out.splitlines() if "VIOLATION property=" in l), "fuzz target crashed (see artifact)")
+        data = open(arts[0], "rb").read()
+        viols.append({"subcheck": f"fuzz:{target}", "message": msg[:1500], "case": {"kind": "fuzz-artifact", "target": target, "input_hex": data.hex()}})
+    elif r.returncode != 0:
+        log(f"fuzz run failed without artifact:\n{out[-2000:]}")
+        return [], stats, True
+    shutil.rmtree(corpus, ignore_errors=True)
+    shutil.rmtree(art, ignore_errors=True)
+    return viols, stats, False
+
+
+def run_replay_fuzz(path, v):
+    case = v.get("case", {})
+    target = case.get("target")
+    tmp = os.path.join(BUILD, f"fuzz-replay-{os.getpid()}.bin")
+    os.makedirs(BUILD, exist_ok=True)
+    open(tmp, "wb").write(bytes.fromhex(case.get("input_hex", "")))
+    r = subprocess.run(["cargo", "+nightly", "fuzz", "run", "--fuzz-dir", os.path.join(VERIF, "fuzz"), target, tmp, "--", "-runs=1"], cwd=HARNESS, env=ENV, stdout=subprocess.PIPE, stderr=subprocess.STDOUT, text=True, timeout=3600)
+    os.unlink(tmp)
+    if r.returncode == 0:
+        return "pass", f"REPLAY-PASS property={v.get('property')} file={path}\n"
+    return "fail", r.stdout[-1500:] + f"\nVIOLATION property={v.get('property')} replay={path}\n"
 
 
 def c16_dump(cfg, chunk, seed, tier):
@@ -313,6 +383,13 @@ def check(prop, tier):
             violations.append((cfg, profile, v))
     if prop == "C16":
         violations += c16_compare(partials, seed, tier)
+    fuzz_stats = None
+    if tier == "thorough" and prop in FUZZ and not os.environ.get("VERIF_NO_FUZZ"):
+        fv, fuzz_stats, finfra = fuzz_phase(prop, seed)
+        infra = infra or finfra
+        for v in fv:
+            violations.append(("default", "release", v))
+        evaluations += fuzz_stats.get("executed_units", 0)
     status = 0
     lines = []
     for cfg, profile, v in violations:
@@ -370,6 +447,7 @@ def check(prop, tier):
             "per_config": per_config,
             "excluded_known": excluded,
             "regression_replays_run": n_regress,
+            "fuzz_campaign": fuzz_stats,
             "notes": notes,
         },
         "assumptions": assumptions,
